@@ -65,6 +65,9 @@ func CreateTxGroup(txs []*Transaction, feeRate int64) (*Transactions, error) {
 	}
 	txgroup := &Transactions{}
 	txgroup.Txs = txs
+	// the last member must not carry a Next (Check rejects it with ErrTxGroupNext);
+	// an input taken from an earlier group may still have one
+	txs[len(txs)-1].Next = nil
 	totalfee := int64(0)
 	minfee := int64(0)
 	header := txs[0].Hash()
@@ -144,6 +147,7 @@ func (txgroup *Transactions) CheckSign(blockHeight int64) bool {
 
 // RebuiltGroup 交易内容有变化时需要重新构建交易组
 func (txgroup *Transactions) RebuiltGroup() {
+	txgroup.Txs[len(txgroup.Txs)-1].Next = nil
 	header := txgroup.Txs[0].Hash()
 	for i := len(txgroup.Txs) - 1; i >= 0; i-- {
 		txgroup.Txs[i].Header = header
